@@ -13,6 +13,8 @@ ops:
                                       -> ok accept il=<b> off=<n> ts=<n> [tuple=…] prev=… | err <kind> prev=… | panic …
   cli.wrap il= att=ok:<tag>:<inIL>,err:<kind>,…   -> ok <tag> | err <kind>
   cli.badlocal tr= iplen=             -> err addr
+  cli.ntsdest tr=ip|scion|scion-local parsed=x<16 bytes>|- port= reach=
+                                      -> ok sent=x<ip>:<port>|- res=fail   (destination of the NTS-protected request)
 -/
 
 def parseT64? (s : String) : Option T64 :=
@@ -248,6 +250,28 @@ def step (_ : Unit) (toks : List String) : Unit × String := Id.run do
       | none => return ((), s!"ok {s.ts}")
       | some e => return ((), s!"err {errName e}")
     | _, _ => return ((), "bad-op")
+  | ["cli.ntsdest", tr, parsed, port, reach] =>
+    -- destination of the NTS-protected request; `reach`: a datagram to the named address can be
+    -- observed on loopback (else the model's claim is only that none goes anywhere else)
+    match kv? [tr] "tr", kv? [parsed] "parsed", (kv? [port] "port").bind (·.toNat?), (kv? [reach] "reach").bind parseBool? with
+    | some tr, some parsed, some port, some reach =>
+      if tr ≠ "ip" ∧ tr ≠ "scion" ∧ tr ≠ "scion-local" then return ((), "bad-op")
+      if port ≥ 65536 then return ((), "bad-op")
+      let parsed? : Option (Option (List Nat)) :=
+        if parsed = "-" then some none
+        else if parsed.startsWith "x" then
+          match parseHex? (parsed.drop 1).toString with
+          | some b => if b.length = 16 then some (some b) else none
+          | none => none
+        else none
+      match parsed? with
+      | none => return ((), "bad-op")
+      | some pr =>
+        match ntsDestination ([], 0) pr port with
+        | some (ip, p) =>
+          if reach then return ((), s!"ok sent=x{toHex ip}:{p} res=fail") else return ((), "ok sent=- res=fail")
+        | none => return ((), "ok sent=- res=fail")
+    | _, _, _, _ => return ((), "bad-op")
   | ["cli.badlocal", tr, iplen] =>
     match (kv? [tr] "tr").bind parseTr?, (kv? [iplen] "iplen").bind (·.toNat?) with
     | some _, some n =>
